@@ -47,7 +47,18 @@ def _run_family(job):
             env = tracer.TableEnv(_r.Random(job["seed"]), serendipity=job["serendipity"],
                                   p_vis=job.get("p_vis", 0.7), p_slew=job.get("p_slew", 0.8), p_hit=job.get("p_hit", 0.5),
                                   preset={tuple(k): v for k, v in job.get("preset", [])})
-        if sd["mode"] == "perm":
+        if sd["mode"] == "tlc":
+            # a TLC-generated behaviour: completion orders and environment outcomes in spec ids
+            tids = sorted(t["id"] for t in cfg["engines"][0]["targets"])
+            sids = sorted(s["id"] for s in cfg["engines"][0]["sensors"])
+            tm = {f"t{i + 1}": x for i, x in enumerate(tids)}
+            sm = {f"s{i + 1}": x for i, x in enumerate(sids)}
+            am = {**tm, **sm}
+            orders = {(k, tag): [am[x] for x in ids] for k, tag, ids in sd["orders"]}
+            preset = {(kind, k, tm[t], sm[s]): v for kind, k, t, s, v in sd["env"] if t in tm and s in sm}
+            env = tracer.TableEnv(_r.Random(job["seed"]), serendipity=False, preset=preset)
+            sch = sysrun.IdSchedule(orders, lambda: tracer.rec().k if tracer.rec() else 0)
+        elif sd["mode"] == "perm":
             sch = sysrun.Schedule("perm", perms={sd["tag"]: sd["perm"]})
         elif sd["mode"] == "perms":
             sch = sysrun.Schedule("perm", perms=sd["perms"])
@@ -114,6 +125,36 @@ def spec_level(ctx: Ctx):
     ctx.extra["spec_mutants_killed"] = killed
 
 
+def tlc_behaviours(ctx: Ctx):
+    """spec -> impl: behaviours of Resonaate.tla generated by TLC (-simulate), one job family per behaviour."""
+    from .. import sysrun
+    jobs = []
+    n_beh = 6 if ctx.quick else 60
+    shapes = {"greedy32": ("MyopicNaiveGreedyDecision", 3, 2), "munkres23": ("MunkresDecision", 2, 3),
+              "random23": ("RandomDecision", 2, 3), "greedy22_ser": ("MyopicNaiveGreedyDecision", 2, 2)}
+    total = 0
+    for name, (pol, nt, ns) in shapes.items():
+        cfg = (tlc.SPEC_DIR / f"MCResonaate_{name}.cfg").read_text()
+        cfg = "\n".join(l for l in cfg.splitlines() if not l.startswith(("INVARIANT", "PROPERTY")))
+        cfg = cfg.replace("NSteps = 1", "NSteps = 2").replace("WithSerendipity = TRUE", "WithSerendipity = FALSE") + "\nINVARIANT SimEmit\n"
+        res = tlc.require_ok(tlc.run_tlc("MCResonaate", cfg, ctx.sub("sim_" + name), workers=1, simulate=f"num={n_beh}",
+                                         depth=120, seed=ctx.seed + 11, timeout=600))
+        ctx.add_tlc(res, f"Resonaate.tla -simulate: {n_beh} behaviours of config {name} for spec->impl replay")
+        ident_t = {f"t{i}": f"t{i}" for i in range(1, 6)}
+        ident_s = {f"s{i}": f"s{i}" for i in range(1, 6)}
+        for bi, beh in enumerate(sysrun.behaviours_from_sim(res.tagged("SIM"), ident_t, ident_s)[:n_beh]):
+            if beh["steps"] < 1:
+                continue
+            total += 1
+            sd = {"mode": "tlc", "orders": [[k, tag, ids] for (k, tag), ids in sorted(beh["orders"].items())],
+                  "env": [[kind, k, t, s, v] for (kind, k, t, s), v in sorted(beh["env"].items())], "config": name, "index": bi}
+            jobs.append({"policy": pol, "nt": nt, "ns": ns, "seed": ctx.seed * 50 + bi, "start": "2018-12-01T12:00:00",
+                         "step": 60, "nsteps": 2, "span": 2, "out_every": 1, "table_env": True, "serendipity": False,
+                         "schedules": [dict(sd, orders=[], reference=True), sd]})
+    ctx.extra["tlc_behaviours_replayed"] = total
+    return jobs
+
+
 def make_jobs(ctx: Ctx, rng):
     jobs = []
     shapes = [(2, 2), (3, 2), (2, 3)] if ctx.quick else [(1, 1), (2, 1), (1, 2), (2, 2), (3, 2), (2, 3), (3, 3), (4, 3), (5, 4)]
@@ -178,7 +219,7 @@ def run(ctx: Ctx):
                        "numeric step results compared with the FIFO run at rtol 1e-9 (observation order inside a filter update may differ)"]
     import time
     t0 = time.time()
-    jobs = make_jobs(ctx, rng)
+    jobs = make_jobs(ctx, rng) + tlc_behaviours(ctx)
     with ThreadPoolExecutor(1) as bg:
         spec_future = bg.submit(spec_level, ctx)          # TLC model checking runs alongside the scenarios
         with ProcessPoolExecutor(max_workers=min(ctx.cpus, 10)) as ex:
